@@ -1,8 +1,10 @@
-/- C13 — read-only operations (initial: RawLRU).
+/- C13 — read-only operations never change what later operations return.
    In the model the pure read-only entry points (`peek`, `contains`, `len`, `cap`, `is_empty`, `peek_lru`, `peek_mru`,
    `get_mru`, iterator construction and stepping, `Debug`) are functions that return an answer and *no* state, so the
    state after them is the state before them by construction; the `&mut`-taking ones are proved here. -/
 import Caches.Lemmas.RawLru
+import Caches.Model.Api
+set_option linter.unusedSectionVars false
 namespace C13
 open M M.RawLru
 variable {κ ν : Type} [DecidableEq κ]
@@ -18,4 +20,117 @@ theorem rawlru_orput_hit (c : RawLru κ ν) (k : κ) (v cur : ν) (h : find k c.
     (∃ e, c.peekOrPut k v = .ok (c, some cur, none, e)) ∧ (∃ e, c.peekMutOrPut k v none = .ok (c, some cur, none, e)) ∧
     (∃ e, c.containsOrPut k v = .ok (c, true, none, e)) := by
   refine ⟨?_, ?_, ?_⟩ <;> simp [RawLru.peekOrPut, RawLru.peekMutOrPut, RawLru.containsOrPut, h]
+/-! ## composites: `peek_mut` without a write is the identity on the whole state (estimator included) -/
+
+theorem slru_peekMut_nowrite (s : Slru κ ν) (k : κ) : (s.peekMut k none).1 = s := by
+  unfold Slru.peekMut RawLru.peekMut
+  cases find k s.prot.items <;> cases find k s.prob.items <;> rfl
+
+theorem twoq_peekMut_nowrite (q : TwoQ κ ν) (k : κ) : (q.peekMut k none).1 = q := by
+  unfold TwoQ.peekMut RawLru.peekMut
+  cases find k q.frequent.items <;> cases find k q.recent.items <;> rfl
+
+theorem arc_peekMut_nowrite (a : Arc κ ν) (k : κ) : (a.peekMut k none).1 = a := by
+  unfold Arc.peekMut RawLru.peekMut
+  cases find k a.recent.items <;> cases find k a.frequent.items <;> rfl
+
+/-- W-TinyLFU: window, both segments **and the frequency estimator** are untouched -/
+theorem wtinylfu_peekMut_nowrite (c : WTinyLfu κ ν) (k : κ) : (c.peekMut k none).1 = c := by
+  unfold WTinyLfu.peekMut RawLru.peekMut
+  cases hw : find k c.window.items with
+  | some v => rfl
+  | none =>
+    simp only
+    have := slru_peekMut_nowrite c.main k
+    generalize hm : c.main.peekMut k none = res at this
+    obtain ⟨m', r⟩ := res
+    simp only at this ⊢
+    rw [this]
+
+/-! ## interleaving: deleting every read-only call from a history changes no later state, for any history.
+    Every return value, eviction choice and iteration order of a later call is a function of the state it runs on,
+    so equal states give equal later results. -/
+
+/-- generic: if the read-only operations are identities, a history and the same history with all of them removed
+    end in the same state (or the same fault) -/
+theorem runOps_skip_readonly {σ ω : Type} (step : σ → ω → Res σ) (ro : ω → Bool)
+    (hro : ∀ s o, ro o = true → step s o = .ok s) (ops : List ω) (s : σ) :
+    runOps step s ops = runOps step s (ops.filter (fun o => !ro o)) := by
+  induction ops generalizing s with
+  | nil => rfl
+  | cons o rest ih =>
+    by_cases h : ro o = true
+    · simp only [runOps, hro s o h, List.filter, h, Bool.not_true]; exact ih s
+    · have h' : ro o = false := by simpa using h
+      simp only [List.filter, h', Bool.not_false, runOps]
+      cases step s o with
+      | error f => rfl
+      | ok s' => exact ih s'
+
+def rawRO : RawOp κ ν → Bool
+  | .read | .peekMut _ none | .peekLruMut none | .peekMruMut none | .getMruMut none => true
+  | _ => false
+def slruRO : SlruOp κ ν → Bool
+  | .read | .peekMut _ none => true
+  | _ => false
+def cacheRO : CacheOp κ ν → Bool
+  | .read | .peekMut _ none => true
+  | _ => false
+
+theorem rawlru_interleave (c : RawLru κ ν) (ops : List (RawOp κ ν)) :
+    runOps RawLru.step c ops = runOps RawLru.step c (ops.filter (fun o => !rawRO o)) := by
+  apply runOps_skip_readonly
+  intro s o h
+  cases o <;> simp only [rawRO] at h <;> try (simp at h)
+  all_goals first
+    | rfl
+    | (rename_i w; cases w <;> simp only [rawRO] at h <;> try (simp at h))
+  all_goals first
+    | rfl
+    | (simp only [RawLru.step]; first
+        | rw [rawlru_peekMut_nowrite] | rw [rawlru_peekLruMut_nowrite]
+        | rw [(rawlru_getMruMut_nowrite _).1] | rw [(rawlru_getMruMut_nowrite _).2])
+
+theorem slru_interleave (s : Slru κ ν) (ops : List (SlruOp κ ν)) :
+    runOps Slru.step s ops = runOps Slru.step s (ops.filter (fun o => !slruRO o)) := by
+  apply runOps_skip_readonly
+  intro s o h
+  cases o <;> simp only [slruRO] at h <;> try (simp at h)
+  all_goals first
+    | rfl
+    | (rename_i w; cases w <;> simp only [slruRO] at h <;> try (simp at h))
+  all_goals first | rfl | (simp only [Slru.step]; rw [slru_peekMut_nowrite])
+
+theorem twoq_interleave (q : TwoQ κ ν) (ops : List (CacheOp κ ν)) :
+    runOps TwoQ.step q ops = runOps TwoQ.step q (ops.filter (fun o => !cacheRO o)) := by
+  apply runOps_skip_readonly
+  intro s o h
+  cases o <;> simp only [cacheRO] at h <;> try (simp at h)
+  all_goals first
+    | rfl
+    | (rename_i w; cases w <;> simp only [cacheRO] at h <;> try (simp at h))
+  all_goals first | rfl | (simp only [TwoQ.step]; rw [twoq_peekMut_nowrite])
+
+theorem arc_interleave (a : Arc κ ν) (ops : List (CacheOp κ ν)) :
+    runOps Arc.step a ops = runOps Arc.step a (ops.filter (fun o => !cacheRO o)) := by
+  apply runOps_skip_readonly
+  intro s o h
+  cases o <;> simp only [cacheRO] at h <;> try (simp at h)
+  all_goals first
+    | rfl
+    | (rename_i w; cases w <;> simp only [cacheRO] at h <;> try (simp at h))
+  all_goals first | rfl | (simp only [Arc.step]; rw [arc_peekMut_nowrite])
+
+theorem wtinylfu_interleave (kh : κ → UInt64) (c : WTinyLfu κ ν) (ops : List (CacheOp κ ν)) :
+    runOps (WTinyLfu.step kh) c ops = runOps (WTinyLfu.step kh) c (ops.filter (fun o => !cacheRO o)) := by
+  apply runOps_skip_readonly
+  intro s o h
+  cases o <;> simp only [cacheRO] at h <;> try (simp at h)
+  all_goals first
+    | rfl
+    | (rename_i w; cases w <;> simp only [cacheRO] at h <;> try (simp at h))
+  all_goals first | rfl | (simp only [WTinyLfu.step]; rw [wtinylfu_peekMut_nowrite])
+
+example : runOps RawLru.step (⟨2, [(1, 10)], false⟩ : RawLru Nat Nat) [.peekMut 1 none, .put 2 20, .read, .peekLruMut none]
+        = runOps RawLru.step ⟨2, [(1, 10)], false⟩ [.put 2 20] := rfl
 end C13
